@@ -140,7 +140,7 @@ func (m *afmReaderModel) run(mode *afmMode, line string) afmLineResult {
 		res.why = m.why
 		return res
 	}
-	ev := &ssaEval{c: c, bind: map[ssa.Value]sv{}, mem: map[string]sv{}}
+	ev := &ssaEval{c: c, bind: map[ssa.Value]sv{}, mem: map[string]sv{}, arrays: true}
 	delivered := false
 	mapEntries := func(id string) map[string]sv {
 		out := map[string]sv{}
